@@ -754,7 +754,12 @@ def c15_history(col, rng, hidx, jobref=None):
                 after="failure" if fail_first else "success", executed=sorted(ent), complete_selection=sorted(exp),
                 expected=short(ref2[1].result, 300), got=short(r2[1], 300), selection=S.jsonable(kw), source=S.render(sp)), rp2)
 
-    for _step in range(rng.randint(2, 8)):
+    # (one history in twenty is LONG: 30 .. 140 operations on one object - the 10th, the 33rd, the 129th call / executor / reload
+    # is the same as the first)
+    long_hist = rng.random() < 0.05
+    if long_hist:
+        col.counters["c15_long_histories"] += 1
+    for _step in range(rng.choice([30, 70, 140]) if long_hist else rng.randint(2, 8)):
         op = rng.choice(["call", "call_partial", "exec_ok", "exec_create", "compose", "config", "fail_node", "missing_arg", "surplus_arg",
                          "exec_retry_after_failure", "exec_rerun_after_success"])
         if op == "call":
